@@ -1222,9 +1222,22 @@ RE_INPUTS = [
     # (index tuple of the residual, remainder label); the remainder has to be
     # of first order at least: factor_itmd only looks at terms whose
     # perturbation theoretical order reaches that of the residual
-    (("i", "j", "a", "b"), "V_contr"), (("i", "j", "a", "b"), "V_disj"),
-    (("k", "l", "c", "d"), "V_contr"), (("k", "i", "c", "a"), "V_disj"),
+    (("i", "j", "a", "b"), "V_disj"), (("i", "j", "a", "b"), "t1x"),
+    (("k", "l", "c", "d"), "t1_free"), (("k", "i", "c", "a"), "V_disj"),
 ]
+
+
+def _re_remainder(tup, label):
+    if label == "t1x":
+        return ("1", (("itmd", "t2_1", tup, 1),
+                      ("x", "x", tuple(sorted(tup, key=gen.name_key)), 1)),
+                ())
+    if label == "t1_free":
+        other = ("i", "j", "a", "b") if "i" not in tup else \
+            ("m", "n", "e", "f")
+        return ("-1/2", (("itmd", "t2_1", other, 1),), tuple(tup) + other)
+    rem = [r for r in _remainders(tup, "thorough") if r[0] == label][0]
+    return rem[1:]
 
 
 def _re_case(case):
@@ -1233,8 +1246,7 @@ def _re_case(case):
     model = _re_model()
     models = [model]
     res = _av()["t2_1_re_residual"]
-    rem = [r for r in _remainders(tup, "thorough") if r[0] == label][0]
-    _, pref, robjs, tg = rem
+    pref, robjs, tg = _re_remainder(tup, label)
     target = gen.syms(tg)
     remainder = gen.PREFS[pref]
     for o in robjs:
